@@ -33,7 +33,7 @@ CHECKS = {
         technique='TLA+ specs StoneLex (line-level lexer machine, model-checked) and StoneTok (token strings and token-edit actions) enumerated by TLC; every text replayed through the real Lexer, specs_to_ir and the command line',
         text='TLC enumerates every sequence of <= 3 (thorough 4) physical lines over a 33-letter alphabet and checks NoCrash, '
              'LayoutInvariance and Balanced on the lexer machine; every string of <= 3 (thorough 5) token classes after a namespace '
-             'header; every single token edit (thorough: 20000 random 2-3 edit behaviours) of four seed specs covering examples, '
+             'header; every single token edit (thorough: 16 slices of 1/160 of the edits at every step for 2- and 3-edit mutants) of four seed specs covering examples, '
              'patches, annotations, routes with attrs and versions, imports, enumerated subtypes. Each text is tokenised by the real '
              'Lexer (skeleton and recorded errors must equal StoneLex!OpLex) and compiled: the outcome must be an Api or InvalidSpec '
              'with a non-empty message and an input path; sampled failing texts go through python -m stone.cli (exit 1, path:line: error:). '
